@@ -287,6 +287,14 @@ func (g *Gen) elem(kind, name string) (*Elem, []target) {
 	switch kind {
 	case KObject:
 		o, more := g.object(name, false, 0, []string{name})
+		if g.chance(1, 6) {
+			// a hand-written part of an entity: `entity.entity` / `entity.part` on the object; a KEYS part gets key
+			// fields, primary ones not first (the compiler keeps the declaration order)
+			o.PSM = &ObjPSM{Entity: pick(g, []string{"Widget", "Acct", "Thing_2"}), Part: pick(g, []string{"keys", "keys", "state", "event", "data"})}
+			if o.PSM.Part == "keys" {
+				g.psmKeys(o)
+			}
+		}
 		return &Elem{Kind: KObject, Object: o}, more
 	case KOneof:
 		o, more := g.object(name, true, 0, []string{name})
@@ -334,6 +342,7 @@ func (g *Gen) enum(name string, pkgLevel bool) *Enum {
 		g.prefixes[eff] = true
 	}
 	e.Opts = g.enumOpts(e.Prefix, name)
+	e.Nums = g.pinNums(e.Opts)
 	if pkgLevel {
 		// enum VALUES live in the scope enclosing the enum: no two enums of the package may yield one value name
 		// (e.g. BarBaz with option X_UNSPECIFIED and BarBazX both give BAR_BAZ_X_UNSPECIFIED)
@@ -342,9 +351,52 @@ func (g *Gen) enum(name string, pkgLevel bool) *Enum {
 			e.Prefix = fmt.Sprintf("P%d_", g.counter)
 			g.prefixes[e.Prefix] = true
 			e.Opts = []string{"ONE", "TWO"}
+			e.Nums = nil
 		}
 	}
 	return e
+}
+
+// pinNums writes a number on some options (`option X { number = N }`): below, at and above the option's position.
+// The compiler numbers by position whatever is written. An option called …UNSPECIFIED is left alone (an explicit
+// zero value is recognised by its number being unset).
+func (g *Gen) pinNums(opts []string) Nums {
+	if !g.chance(1, 4) {
+		return nil
+	}
+	var nums Nums
+	for i, o := range opts {
+		if strings.HasSuffix(o, "UNSPECIFIED") || g.chance(1, 2) {
+			continue
+		}
+		pos := i + 1
+		nums = nums.set(o, int32(pick(g, []int{1, 2, pos, pos, pos + 1, pos + 3, 9, 40})))
+	}
+	return nums
+}
+
+// psmKeys puts key fields in front of / between the properties of a hand-written KEYS object.
+func (g *Gen) psmKeys(o *Object) {
+	taken := map[string]bool{}
+	for _, p := range o.Props {
+		taken[strcase.ToSnake(p.Name)] = true
+	}
+	var keys []*Prop
+	for i, nm := range []string{"tenantRef", "widgetId", "revision", "orgKey"} {
+		if taken[strcase.ToSnake(nm)] || (i > 0 && g.chance(1, 3)) {
+			continue
+		}
+		f := &Field{Kind: FKey, Fmt: pick(g, []string{"none", "uuid", "id62"})}
+		switch {
+		case i == 1 || g.chance(1, 4):
+			f.EntKey = &EntKey{Kind: "primary", Primary: true}
+		case g.chance(1, 2):
+			f.EntKey = g.entKey(false)
+		}
+		keys = append(keys, &Prop{Name: nm, Field: f})
+	}
+	at := g.n(len(o.Props))
+	o.Props = append(o.Props[:at:at], append(keys, o.Props[at:]...)...)
 }
 
 // enumValueNames: the value names an enum puts into its enclosing scope (implicit zero first).
@@ -686,12 +738,14 @@ func (g *Gen) typed(kind, propName string, depth int, path []string, taken map[s
 		if len(t.Opts) == 0 {
 			t.Opts = []string{"ONLY"} // an inline enum without options parses to an unset schema
 		}
+		t.Nums = g.pinNums(t.Opts)
 		for !claimValues(taken, t.Prefix, eff, t.Opts) {
 			g.counter++
 			t.Prefix = fmt.Sprintf("E%d_", g.counter)
 			effPfx = t.Prefix
 			taken["pfx:"+effPfx] = true
 			t.Opts = []string{"ONLY"}
+			t.Nums = nil
 		}
 		f.Ref = t
 		if g.chance(1, 5) {
@@ -768,9 +822,40 @@ func (g *Gen) service(named bool) *Service {
 		}
 		s.BasePath = &bp
 	}
+	// path parameters declared in the basePath: every method's request then carries the field, whether or not
+	// the method's own path has parameters (the `:name` -> `{snake_name}` rewrite covers the JOINED path)
+	var bpParams []string
+	if s.BasePath != nil && g.chance(1, 3) {
+		bp := strings.TrimSuffix(*s.BasePath, "/")
+		for _, pp := range []string{"bpScope", "scope_ref"} {
+			if g.chance(1, 2) || len(bpParams) == 0 {
+				bpParams = append(bpParams, pp)
+				if g.chance(1, 2) {
+					bp += "/:" + pp
+				} else {
+					bp = "/:" + pp + bp
+				}
+			}
+			if g.chance(1, 2) {
+				break
+			}
+		}
+		s.BasePath = &bp
+	}
 	nm := g.n(3)
+	if len(bpParams) > 0 && nm == 0 {
+		nm = 1
+	}
 	for i := 0; i < nm; i++ {
-		s.Methods = append(s.Methods, g.method())
+		m := g.method()
+		for _, pp := range bpParams {
+			m.Req = append(m.Req, &Prop{Name: pp, Field: &Field{Kind: pick(g, []string{FString, FKey}), Fmt: "none"}})
+		}
+		if len(bpParams) > 0 && g.chance(1, 2) {
+			// a method without parameters of its own
+			m.Path = pick(g, []string{"", "/", "/" + pick(g, pathWords)})
+		}
+		s.Methods = append(s.Methods, m)
 	}
 	return s
 }
@@ -989,6 +1074,8 @@ func (g *Gen) entity() *Entity {
 	for i := 0; i < ns; i++ {
 		e.Statuses = append(e.Statuses, g.uniq(sseen, optWords, nil))
 	}
+	// `status X { number = N }`: written numbers are ignored, statuses are numbered by position
+	e.StatusNums = g.pinNums(e.Statuses)
 	nev := g.n(4)
 	eseen := map[string]bool{}
 	lseen := map[string]bool{}
@@ -1073,11 +1160,17 @@ func (g *Gen) FreshProp(oneof bool, idx int) *Prop {
 		p.Field = inlObj()
 		return p
 	}
-	switch g.n(7) {
+	switch g.n(8) {
+	case 7:
+		// a key of an entity, primary or not
+		p.Field = &Field{Kind: FKey, Fmt: pick(g, []string{"none", "uuid", "id62"}), EntKey: g.entKey(true)}
 	case 0:
 		p.Field = inlObj()
 	case 1:
 		p.Field = &Field{Kind: FEnum, Ref: &TRef{Kind: RInlEnum, Opts: []string{"ZZ_A", "ZZ_B"}}}
+		if g.chance(1, 2) {
+			p.Field.Ref.Nums = Nums{}.set(pick(g, []string{"ZZ_A", "ZZ_B"}), int32(1+g.n(3)))
+		}
 	case 2:
 		p.Field = &Field{Kind: FArray, Items: g.scalar()}
 	case 3:
@@ -1093,6 +1186,9 @@ func (g *Gen) FreshProp(oneof bool, idx int) *Prop {
 	case 1:
 		p.Opt = p.Field.Kind != FArray && p.Field.Kind != FMap
 	}
+	if ek := p.Field.EntKey; ek != nil && ek.Kind == "primary" && ek.Primary {
+		p.Opt = false // a primary key is required: `optional` on it is rejected
+	}
 	return p
 }
 
@@ -1101,7 +1197,11 @@ func (g *Gen) FreshDecl(idx int) *Elem {
 	base := fmt.Sprintf("ZzNew%d", idx)
 	switch g.n(5) {
 	case 0:
-		return &Elem{Kind: KEnum, Enum: &Enum{Name: base + "Enum", Opts: []string{"P", "Q"}}}
+		e := &Enum{Name: base + "Enum", Opts: []string{"P", "Q"}}
+		if g.chance(1, 2) {
+			e.Nums = Nums{}.set(pick(g, e.Opts), int32(1+g.n(3)))
+		}
+		return &Elem{Kind: KEnum, Enum: e}
 	case 1:
 		return &Elem{Kind: KOneof, Object: &Object{Oneof: true, Name: base + "Choice", Props: []*Prop{g.FreshProp(true, 0)}}}
 	case 2:
